@@ -16,6 +16,7 @@ ENGINES = {
  "world": ("harness/src/world.rs + vlib/worldeng.py + vlib/check_world.py + lean/Driver/WorldDrv.lean", "2..6 real MDK instances (memory/SQLite), pool of wrapper events, scheduled deliveries with duplication/reordering/restarts, replayed step by step on Model.Client; convergence / frame / sync / duplicate oracles"),
  "know": ("harness/src/invite.rs + vlib/knoweng.py + vlib/check_C03.py + lean/Driver/KnowDrv.lean", "observers fed every event ever published; knowledge model replay"),
  "appmsg": ("harness/src/appmsg.rs (on harness/src/world.rs) + vlib/appmsgeng.py + vlib/check_C04.py + lean/Driver/AppMsgDrv.lean", "adversarial application messages crafted with OpenMLS directly (chosen pubkey/id/timestamp/kind/tags, cross-group wraps, replays, stale ex-member) delivered to a real MDK receiver on memory and SQLite; replayed on Model.AppMsg; oracle over the stored rows"),
+ "mediaw": ("harness/src/codec.rs (media ops) + harness/src/mediaw.rs (on harness/src/world.rs) + vlib/mediaeng.py + vlib/check_C17.py + lean/Driver/MediaDrv.lean", "HKDF context / AAD correspondence over the real key derivation, and media histories on real MDK instances (encrypt, announce, commits, decrypt at members/non-members, tampers, group images) replayed on Model.MediaEpoch"),
  "media": ("harness/src/codec.rs (media ops) + harness/src/world.rs + vlib/mediaeng.py", "HKDF context / AAD correspondence and epoch-hint histories"),
 }
 def main():
